@@ -71,7 +71,7 @@ def concatKey (r : Req) : String := r.key ++ r.ty
 
 /-- which construction the code uses (regenerated from `config.go` by the extractor) -/
 inductive KeyKind where
-  | pair | concat
+  | pair | concat | typeName
   deriving DecidableEq, Repr
 
 end GConfigCache
